@@ -1,1 +1,1206 @@
-fn main() {}
+//! readmon - runtime monitor for the token/line reader (C08): results depend only on the input bytes,
+//! not on how the source delivers them.
+//!
+//! A `ScriptedRead` source hands the input over according to a delivery schedule ("give k bytes" /
+//! "fail with ErrorKind::Interrupted") and logs every call. Each (input, script) is executed under many
+//! schedules; every result list must equal the one computed by a positional reference parser from the
+//! complete byte string (and hence the result of every other delivery).
+//!
+//! modes: exhaustive (all chunk compositions of short inputs + Interrupted at every subset of calls),
+//!        random (random inputs, random / one-byte / stale-buffer schedules, Interrupted density up to 50 %),
+//!        boundary (inputs longer than the internal buffer, tokens / "-" / CR LF placed across buffer and chunk edges)
+//! replay: --mode <m> --case <case_seed>[:<schedule index>]
+
+use common::{catch, lib, mix, show_bytes, Engine, Json, Report, Rng, WorkQueue};
+use rlib_io::Reader;
+use std::cell::RefCell;
+use std::io::Read;
+use std::rc::Rc;
+
+// ------------------------------------------------------------------------------------------------
+// scripted source
+
+#[derive(Clone, Copy, Debug, PartialEq)]
+enum Ins {
+    Give(usize),
+    Interrupt,
+}
+
+#[derive(Clone, Debug)]
+enum Tail {
+    /// after the schedule: hand over everything that fits
+    All,
+    /// after the schedule: k bytes per call
+    Fixed(usize),
+}
+
+#[derive(Default)]
+struct CallLog {
+    calls: u64,
+    interrupts: u64,
+    /// offsets (into the input) at which a delivery ended before the end of input: chunk boundaries
+    boundaries: Vec<usize>,
+    /// call numbers that were interrupted
+    interrupted_calls: Vec<u64>,
+    eof_reads: u64,
+    max_request: usize,
+}
+
+struct ScriptedRead {
+    data: Rc<Vec<u8>>,
+    pos: usize,
+    schedule: Vec<Ins>,
+    next: usize,
+    tail: Tail,
+    log: Rc<RefCell<CallLog>>,
+}
+
+impl Read for ScriptedRead {
+    fn read(&mut self, buf: &mut [u8]) -> std::io::Result<usize> {
+        let mut log = self.log.borrow_mut();
+        log.calls += 1;
+        if buf.len() > log.max_request {
+            log.max_request = buf.len();
+        }
+        let ins = if self.next < self.schedule.len() {
+            let i = self.schedule[self.next];
+            self.next += 1;
+            i
+        } else {
+            match self.tail {
+                Tail::All => Ins::Give(usize::MAX),
+                Tail::Fixed(k) => Ins::Give(k),
+            }
+        };
+        match ins {
+            Ins::Interrupt => {
+                log.interrupts += 1;
+                let c = log.calls;
+                log.interrupted_calls.push(c);
+                Err(std::io::Error::new(std::io::ErrorKind::Interrupted, "scripted EINTR"))
+            }
+            Ins::Give(k) => {
+                let remaining = self.data.len() - self.pos;
+                if remaining == 0 {
+                    log.eof_reads += 1;
+                    return Ok(0);
+                }
+                let k = k.max(1).min(remaining).min(buf.len());
+                buf[..k].copy_from_slice(&self.data[self.pos..self.pos + k]);
+                self.pos += k;
+                if self.pos < self.data.len() {
+                    log.boundaries.push(self.pos);
+                }
+                Ok(k)
+            }
+        }
+    }
+}
+
+// ------------------------------------------------------------------------------------------------
+// scripts and results
+
+#[derive(Clone, Debug, PartialEq)]
+enum Res {
+    Int(i128),
+    UInt(u128),
+    Str(String),
+    Char(char),
+    Line(Option<String>),
+    Lines(Vec<String>),
+    Eof(bool),
+    List(Vec<Res>),
+}
+
+#[derive(Clone, Copy, Debug, PartialEq)]
+enum Ty {
+    I8,
+    I16,
+    I32,
+    I64,
+    I128,
+    Isize,
+    U8,
+    U16,
+    U32,
+    U64,
+    U128,
+    Usize,
+    Str,
+    Char,
+}
+
+const INT_TYS: [Ty; 12] = [Ty::I8, Ty::I16, Ty::I32, Ty::I64, Ty::I128, Ty::Isize, Ty::U8, Ty::U16, Ty::U32, Ty::U64, Ty::U128, Ty::Usize];
+
+fn ty_range(t: Ty) -> (i128, u128) {
+    // (min as i128, max as u128)
+    match t {
+        Ty::I8 => (i8::MIN as i128, i8::MAX as u128),
+        Ty::I16 => (i16::MIN as i128, i16::MAX as u128),
+        Ty::I32 => (i32::MIN as i128, i32::MAX as u128),
+        Ty::I64 => (i64::MIN as i128, i64::MAX as u128),
+        Ty::I128 => (i128::MIN, i128::MAX as u128),
+        Ty::Isize => (isize::MIN as i128, isize::MAX as u128),
+        Ty::U8 => (0, u8::MAX as u128),
+        Ty::U16 => (0, u16::MAX as u128),
+        Ty::U32 => (0, u32::MAX as u128),
+        Ty::U64 => (0, u64::MAX as u128),
+        Ty::U128 => (0, u128::MAX),
+        Ty::Usize => (0, usize::MAX as u128),
+        _ => unreachable!(),
+    }
+}
+
+fn is_signed(t: Ty) -> bool {
+    matches!(t, Ty::I8 | Ty::I16 | Ty::I32 | Ty::I64 | Ty::I128 | Ty::Isize)
+}
+
+#[derive(Clone, Debug)]
+enum Item {
+    One(Ty),
+    /// fixed tuple types, index into TUPLES
+    Tuple(usize),
+    /// read_vec::<T>(n)
+    VecOf(Ty, usize),
+    Line,
+    Lines,
+    IsEof,
+}
+
+/// element types of the fixed tuple types the engine instantiates
+const TUPLES: [&[Ty]; 8] = [
+    &[Ty::I32, Ty::U64],
+    &[Ty::Str, Ty::I8, Ty::U16],
+    &[Ty::I64, Ty::I64, Ty::I64, Ty::I64],
+    &[Ty::U8, Ty::I16, Ty::U32, Ty::I64, Ty::U128],
+    &[Ty::I128, Ty::Str, Ty::Char, Ty::Usize, Ty::Isize, Ty::U16],
+    &[Ty::U32, Ty::U32, Ty::Char, Ty::U32, Ty::Str, Ty::U32, Ty::I8],
+    &[Ty::I8, Ty::U8, Ty::I16, Ty::U16, Ty::I32, Ty::U32, Ty::I64, Ty::U64],
+    &[Ty::Char, Ty::Char],
+];
+
+fn read_one(r: &mut Reader, t: Ty) -> Res {
+    match t {
+        Ty::I8 => Res::Int(lib!(r.read::<i8>()) as i128),
+        Ty::I16 => Res::Int(lib!(r.read::<i16>()) as i128),
+        Ty::I32 => Res::Int(lib!(r.read::<i32>()) as i128),
+        Ty::I64 => Res::Int(lib!(r.read::<i64>()) as i128),
+        Ty::I128 => Res::Int(lib!(r.read::<i128>())),
+        Ty::Isize => Res::Int(lib!(r.read::<isize>()) as i128),
+        Ty::U8 => Res::UInt(lib!(r.read::<u8>()) as u128),
+        Ty::U16 => Res::UInt(lib!(r.read::<u16>()) as u128),
+        Ty::U32 => Res::UInt(lib!(r.read::<u32>()) as u128),
+        Ty::U64 => Res::UInt(lib!(r.read::<u64>()) as u128),
+        Ty::U128 => Res::UInt(lib!(r.read::<u128>())),
+        Ty::Usize => Res::UInt(lib!(r.read::<usize>()) as u128),
+        Ty::Str => Res::Str(lib!(r.read::<String>())),
+        Ty::Char => Res::Char(lib!(r.read::<char>())),
+    }
+}
+
+fn read_vec_of(r: &mut Reader, t: Ty, n: usize) -> Res {
+    macro_rules! rv {
+        ($t:ty, $w:expr) => {
+            Res::List(lib!(r.read_vec::<$t>(n)).into_iter().map($w).collect())
+        };
+    }
+    match t {
+        Ty::I8 => rv!(i8, |x| Res::Int(x as i128)),
+        Ty::I16 => rv!(i16, |x| Res::Int(x as i128)),
+        Ty::I32 => rv!(i32, |x| Res::Int(x as i128)),
+        Ty::I64 => rv!(i64, |x| Res::Int(x as i128)),
+        Ty::I128 => rv!(i128, Res::Int),
+        Ty::Isize => rv!(isize, |x| Res::Int(x as i128)),
+        Ty::U8 => rv!(u8, |x| Res::UInt(x as u128)),
+        Ty::U16 => rv!(u16, |x| Res::UInt(x as u128)),
+        Ty::U32 => rv!(u32, |x| Res::UInt(x as u128)),
+        Ty::U64 => rv!(u64, |x| Res::UInt(x as u128)),
+        Ty::U128 => rv!(u128, Res::UInt),
+        Ty::Usize => rv!(usize, |x| Res::UInt(x as u128)),
+        Ty::Str => rv!(String, Res::Str),
+        Ty::Char => rv!(char, Res::Char),
+    }
+}
+
+fn read_tuple(r: &mut Reader, k: usize) -> Res {
+    // the real tuple impls of the library (arity 2..=8)
+    match k {
+        0 => {
+            let (a, b) = lib!(r.read::<(i32, u64)>());
+            Res::List(vec![Res::Int(a as i128), Res::UInt(b as u128)])
+        }
+        1 => {
+            let (a, b, c) = lib!(r.read::<(String, i8, u16)>());
+            Res::List(vec![Res::Str(a), Res::Int(b as i128), Res::UInt(c as u128)])
+        }
+        2 => {
+            let (a, b, c, d) = lib!(r.read::<(i64, i64, i64, i64)>());
+            Res::List(vec![Res::Int(a as i128), Res::Int(b as i128), Res::Int(c as i128), Res::Int(d as i128)])
+        }
+        3 => {
+            let (a, b, c, d, e) = lib!(r.read::<(u8, i16, u32, i64, u128)>());
+            Res::List(vec![Res::UInt(a as u128), Res::Int(b as i128), Res::UInt(c as u128), Res::Int(d as i128), Res::UInt(e)])
+        }
+        4 => {
+            let (a, b, c, d, e, f) = lib!(r.read::<(i128, String, char, usize, isize, u16)>());
+            Res::List(vec![Res::Int(a), Res::Str(b), Res::Char(c), Res::UInt(d as u128), Res::Int(e as i128), Res::UInt(f as u128)])
+        }
+        5 => {
+            let (a, b, c, d, e, f, g) = lib!(r.read::<(u32, u32, char, u32, String, u32, i8)>());
+            Res::List(vec![
+                Res::UInt(a as u128),
+                Res::UInt(b as u128),
+                Res::Char(c),
+                Res::UInt(d as u128),
+                Res::Str(e),
+                Res::UInt(f as u128),
+                Res::Int(g as i128),
+            ])
+        }
+        6 => {
+            let (a, b, c, d, e, f, g, h) = lib!(r.read::<(i8, u8, i16, u16, i32, u32, i64, u64)>());
+            Res::List(vec![
+                Res::Int(a as i128),
+                Res::UInt(b as u128),
+                Res::Int(c as i128),
+                Res::UInt(d as u128),
+                Res::Int(e as i128),
+                Res::UInt(f as u128),
+                Res::Int(g as i128),
+                Res::UInt(h as u128),
+            ])
+        }
+        _ => {
+            let (a, b) = lib!(r.read::<(char, char)>());
+            Res::List(vec![Res::Char(a), Res::Char(b)])
+        }
+    }
+}
+
+fn exec_item(r: &mut Reader, it: &Item) -> Res {
+    match it {
+        Item::One(t) => read_one(r, *t),
+        Item::Tuple(k) => read_tuple(r, *k),
+        Item::VecOf(t, n) => read_vec_of(r, *t, *n),
+        Item::Line => Res::Line(lib!(r.read_line())),
+        Item::Lines => Res::Lines(lib!(r.read_lines())),
+        Item::IsEof => Res::Eof(lib!(r.is_eof())),
+    }
+}
+
+// ------------------------------------------------------------------------------------------------
+// reference model: a positional parser over the complete byte string (a function of the bytes alone)
+
+struct ModelParser<'a> {
+    b: &'a [u8],
+    pos: usize,
+    /// spans of tokens consumed: (start, end, kind) for coverage statistics
+    spans: Vec<(usize, usize, &'static str)>,
+}
+
+fn is_ws(c: u8) -> bool {
+    // u8::is_ascii_whitespace: space, \t, \n, \x0C, \r
+    matches!(c, b' ' | b'\t' | b'\n' | 0x0c | b'\r')
+}
+
+impl<'a> ModelParser<'a> {
+    fn skip_ws(&mut self) {
+        while self.pos < self.b.len() && is_ws(self.b[self.pos]) {
+            self.pos += 1;
+        }
+    }
+    fn token(&mut self, kind: &'static str) -> Result<&'a [u8], String> {
+        self.skip_ws();
+        let s = self.pos;
+        while self.pos < self.b.len() && !is_ws(self.b[self.pos]) {
+            self.pos += 1;
+        }
+        if s == self.pos {
+            return Err("script reads a token past the end of input (harness bug)".into());
+        }
+        self.spans.push((s, self.pos, kind));
+        Ok(&self.b[s..self.pos])
+    }
+    fn one(&mut self, t: Ty) -> Result<Res, String> {
+        match t {
+            Ty::Str => {
+                let tok = self.token("string")?;
+                Ok(Res::Str(tok.iter().map(|&c| c as char).collect()))
+            }
+            Ty::Char => {
+                self.skip_ws();
+                if self.pos >= self.b.len() {
+                    return Err("script reads a char past the end of input (harness bug)".into());
+                }
+                let c = self.b[self.pos];
+                self.spans.push((self.pos, self.pos + 1, "char"));
+                self.pos += 1;
+                Ok(Res::Char(c as char))
+            }
+            _ => {
+                let tok = self.token(if is_signed(t) { "signed" } else { "unsigned" })?;
+                let s = std::str::from_utf8(tok).map_err(|e| e.to_string())?;
+                let (lo, hi) = ty_range(t);
+                if is_signed(t) {
+                    let v: i128 = s.parse().map_err(|_| format!("not an integer token: {:?} (harness bug)", s))?;
+                    if v < lo || (v > 0 && v as u128 > hi) {
+                        return Err(format!("token {} out of range for {:?} (harness bug)", s, t));
+                    }
+                    Ok(Res::Int(v))
+                } else {
+                    let v: u128 = s.parse().map_err(|_| format!("not an unsigned token: {:?} (harness bug)", s))?;
+                    if v > hi {
+                        return Err(format!("token {} out of range for {:?} (harness bug)", s, t));
+                    }
+                    Ok(Res::UInt(v))
+                }
+            }
+        }
+    }
+    fn line(&mut self) -> Option<String> {
+        if self.pos >= self.b.len() {
+            return None;
+        }
+        let s = self.pos;
+        let mut e = s;
+        while e < self.b.len() && self.b[e] != b'\n' {
+            e += 1;
+        }
+        let mut text_end = e;
+        if e < self.b.len() {
+            // terminated by LF: one CR directly before it is stripped
+            if e > s && self.b[e - 1] == b'\r' {
+                text_end = e - 1;
+            }
+            self.pos = e + 1;
+        } else {
+            self.pos = e;
+        }
+        self.spans.push((s, self.pos, "line"));
+        Some(self.b[s..text_end].iter().map(|&c| c as char).collect())
+    }
+    fn item(&mut self, it: &Item) -> Result<Res, String> {
+        Ok(match it {
+            Item::One(t) => self.one(*t)?,
+            Item::Tuple(k) => {
+                let mut v = Vec::new();
+                for t in TUPLES[*k] {
+                    v.push(self.one(*t)?);
+                }
+                Res::List(v)
+            }
+            Item::VecOf(t, n) => {
+                let mut v = Vec::new();
+                for _ in 0..*n {
+                    v.push(self.one(*t)?);
+                }
+                Res::List(v)
+            }
+            Item::Line => Res::Line(self.line()),
+            Item::Lines => {
+                let mut v = Vec::new();
+                while let Some(l) = self.line() {
+                    v.push(l);
+                }
+                Res::Lines(v)
+            }
+            Item::IsEof => {
+                self.skip_ws();
+                Res::Eof(self.pos >= self.b.len())
+            }
+        })
+    }
+}
+
+fn model_run(bytes: &[u8], script: &[Item]) -> Result<(Vec<Res>, Vec<(usize, usize, &'static str)>), String> {
+    let mut m = ModelParser { b: bytes, pos: 0, spans: Vec::new() };
+    let mut out = Vec::new();
+    for it in script {
+        out.push(m.item(it)?);
+    }
+    Ok((out, m.spans))
+}
+
+// ------------------------------------------------------------------------------------------------
+// input generation: script first, then rendered with random separators
+
+fn gen_int_text(rng: &mut Rng, t: Ty) -> String {
+    let (lo, hi) = ty_range(t);
+    if is_signed(t) {
+        let v: i128 = match rng.below(10) {
+            0 => lo,
+            1 => lo + 1,
+            2 => hi as i128,
+            3 => hi as i128 - 1,
+            4 => 0,
+            5 => -1,
+            6 => return "-0".to_string(),
+            7 => rng.range_i64(-20, 20) as i128,
+            _ => {
+                // random magnitude with a random number of digits
+                let bits = rng.range_usize(1, 127);
+                let raw = ((rng.next_u64() as u128) << 64 | rng.next_u64() as u128) >> (128 - bits);
+                let m = (raw % (hi + 1)) as i128;
+                if rng.chance(1, 2) {
+                    -m
+                } else {
+                    m
+                }
+            }
+        };
+        v.to_string()
+    } else {
+        let v: u128 = match rng.below(8) {
+            0 => hi,
+            1 => hi - 1,
+            2 => 0,
+            3 => 1,
+            4 => rng.below(100) as u128,
+            5 => return format!("00{}", rng.below(100)), // leading zeros are digits too
+            _ => {
+                let bits = rng.range_usize(1, 128);
+                let raw = ((rng.next_u64() as u128) << 64 | rng.next_u64() as u128) >> (128 - bits);
+                if hi == u128::MAX {
+                    raw
+                } else {
+                    raw % (hi + 1)
+                }
+            }
+        };
+        v.to_string()
+    }
+}
+
+fn gen_str_text(rng: &mut Rng, maxlen: usize) -> String {
+    let n = match rng.below(6) {
+        0 => 1,
+        1 => 2,
+        _ => rng.range_usize(1, maxlen.max(1)),
+    };
+    (0..n)
+        .map(|_| match rng.below(8) {
+            0 => '-',
+            1 => (b'0' + rng.below(10) as u8) as char,
+            _ => (0x21 + rng.below(0x7e - 0x21 + 1) as u8) as char,
+        })
+        .collect()
+}
+
+fn gen_sep(rng: &mut Rng, allow_newlines: bool) -> Vec<u8> {
+    let n = match rng.below(10) {
+        0..=5 => 1,
+        6 | 7 => 2,
+        _ => rng.range_usize(1, 5),
+    };
+    let mut v = Vec::new();
+    for _ in 0..n {
+        match rng.below(if allow_newlines { 9 } else { 3 }) {
+            0 | 1 => v.push(b' '),
+            2 => v.push(b'\t'),
+            3 | 4 => v.push(b'\n'),
+            5 => v.extend_from_slice(b"\r\n"),
+            6 => v.push(b'\r'),
+            7 => v.push(0x0c),
+            _ => v.push(b'\n'),
+        }
+    }
+    v
+}
+
+fn gen_line_text(rng: &mut Rng) -> Vec<u8> {
+    let n = match rng.below(5) {
+        0 => 0,
+        1 => 1,
+        _ => rng.range_usize(0, 12),
+    };
+    (0..n)
+        .map(|_| match rng.below(10) {
+            0 => b' ',
+            1 => b'\t',
+            2 => b'\r', // CR inside a line (not before LF) is kept
+            _ => 0x21 + rng.below(0x7e - 0x21 + 1) as u8,
+        })
+        .collect()
+}
+
+/// Makes the next line read start at the beginning of a fresh line: whatever is left of the current line (trailing
+/// separators after the last token, possibly containing newlines) is consumed by as many `Line` items as needed.
+fn flush_current_line(script: &mut Vec<Item>, bytes: &mut Vec<u8>) {
+    let pos = {
+        let mut m = ModelParser { b: bytes, pos: 0, spans: Vec::new() };
+        for it in script.iter() {
+            if m.item(it).is_err() {
+                return; // reported later by `prepare`
+            }
+        }
+        m.pos
+    };
+    if pos >= bytes.len() {
+        return;
+    }
+    if *bytes.last().unwrap() != b'\n' {
+        bytes.push(b'\n');
+    }
+    let k = bytes[pos..].iter().filter(|&&c| c == b'\n').count();
+    for _ in 0..k {
+        script.push(Item::Line);
+    }
+}
+
+/// Generates (script, bytes). `budget` bounds the input length roughly (None = free).
+fn gen_input(rng: &mut Rng, max_items: usize, max_len: usize) -> (Vec<Item>, Vec<u8>) {
+    let mut script: Vec<Item> = Vec::new();
+    let mut bytes: Vec<u8> = Vec::new();
+    let nitems = rng.range_usize(1, max_items);
+    // leading whitespace sometimes
+    if rng.chance(1, 4) {
+        bytes.extend(gen_sep(rng, true));
+    }
+    let mut token_open = false; // last thing rendered was a token without a separator after it
+    let mut last_char = false;
+    let mut after_eof_test = false;
+    for _ in 0..nitems {
+        if bytes.len() >= max_len {
+            break;
+        }
+        let line_ok = !after_eof_test;
+        let choice = rng.weighted(&[30, 10, 8, 8, 6, if line_ok { 12 } else { 0 }, if line_ok { 4 } else { 0 }]);
+        let len_before = bytes.len();
+        // token_open: the last byte rendered belongs to a multi-byte token (a separator is required before the next
+        // token); last_char: the last byte rendered is a `char` item, which consumes exactly one byte, so the next
+        // token may follow immediately
+        let emit_tokens = |tys: &[Ty], rng: &mut Rng, bytes: &mut Vec<u8>, token_open: &mut bool, last_char: &mut bool| {
+            for &t in tys {
+                if *token_open || (*last_char && rng.chance(1, 2)) {
+                    bytes.extend(gen_sep(rng, true));
+                }
+                match t {
+                    Ty::Str => bytes.extend(gen_str_text(rng, 10).bytes()),
+                    Ty::Char => bytes.push(0x21 + rng.below(0x7e - 0x21 + 1) as u8),
+                    _ => bytes.extend(gen_int_text(rng, t).bytes()),
+                }
+                *token_open = t != Ty::Char;
+                *last_char = t == Ty::Char;
+                if *token_open && rng.chance(3, 4) {
+                    bytes.extend(gen_sep(rng, true));
+                    *token_open = false;
+                }
+            }
+        };
+        match choice {
+            0 => {
+                let t = if rng.chance(4, 5) { INT_TYS[rng.usize_below(12)] } else if rng.chance(1, 2) { Ty::Str } else { Ty::Char };
+                // a token glued after a char without separator would merge with it only if the previous was a token:
+                // chars consume exactly one byte, so gluing is fine after a char only
+                emit_tokens(&[t], rng, &mut bytes, &mut token_open, &mut last_char);
+                script.push(Item::One(t));
+            }
+            1 => {
+                let k = rng.usize_below(TUPLES.len());
+                emit_tokens(TUPLES[k], rng, &mut bytes, &mut token_open, &mut last_char);
+                script.push(Item::Tuple(k));
+            }
+            2 => {
+                let t = INT_TYS[rng.usize_below(12)];
+                let n = rng.range_usize(0, 6);
+                let tys: Vec<Ty> = vec![t; n];
+                emit_tokens(&tys, rng, &mut bytes, &mut token_open, &mut last_char);
+                script.push(Item::VecOf(t, n));
+            }
+            3 => {
+                let t = if rng.chance(1, 2) { Ty::Str } else { Ty::Char };
+                let n = rng.range_usize(1, 4);
+                let tys: Vec<Ty> = vec![t; n];
+                emit_tokens(&tys, rng, &mut bytes, &mut token_open, &mut last_char);
+                script.push(Item::VecOf(t, n));
+            }
+            4 => {
+                script.push(Item::IsEof);
+                after_eof_test = true;
+                continue;
+            }
+            5 => {
+                // line reads: first consume the rest of the current line
+                if token_open {
+                    bytes.push(*rng.pick(&[b' ', b'\n', b'\t']));
+                }
+                flush_current_line(&mut script, &mut bytes);
+                last_char = false;
+                let n = rng.range_usize(1, 3);
+                for _ in 0..n {
+                    let l = gen_line_text(rng);
+                    bytes.extend(l);
+                    match rng.below(4) {
+                        0 => bytes.extend_from_slice(b"\r\n"),
+                        _ => bytes.push(b'\n'),
+                    }
+                    script.push(Item::Line);
+                }
+                token_open = false;
+            }
+            _ => {
+                // read everything that is left as lines: must be the last item
+                if token_open {
+                    bytes.push(*rng.pick(&[b' ', b'\n', b'\t']));
+                }
+                if rng.chance(1, 2) {
+                    flush_current_line(&mut script, &mut bytes);
+                }
+                let n = rng.range_usize(0, 4);
+                for i in 0..n {
+                    bytes.extend(gen_line_text(rng));
+                    if i + 1 < n || rng.chance(2, 3) {
+                        if rng.chance(1, 3) {
+                            bytes.extend_from_slice(b"\r\n");
+                        } else {
+                            bytes.push(b'\n');
+                        }
+                    }
+                }
+                if rng.chance(1, 5) {
+                    bytes.push(b'\r'); // input ending in a lone CR
+                }
+                script.push(Item::Lines);
+                script.push(Item::Line); // -> None
+                script.push(Item::IsEof);
+                return (script, bytes);
+            }
+        }
+        // an end-of-input test skips whitespace; a line read directly after it (with nothing but whitespace rendered in
+        // between) would make that skipping observable, which the property does not pin down - keep them apart
+        if bytes.len() > len_before {
+            after_eof_test = false;
+        }
+    }
+    // tail: nothing, whitespace, an end-of-input test, or lines
+    match rng.below(6) {
+        0 => {}
+        1 => bytes.extend(gen_sep(rng, true)),
+        2 => {
+            if token_open || bytes.is_empty() || !is_ws(*bytes.last().unwrap()) {
+                // keep the unterminated last token: input ends right after it
+            }
+            script.push(Item::IsEof);
+        }
+        3 => {
+            bytes.extend(gen_sep(rng, true));
+            script.push(Item::IsEof);
+            script.push(Item::IsEof);
+        }
+        4 => {
+            bytes.push(b'\n');
+            bytes.extend(gen_line_text(rng));
+            if rng.chance(1, 2) {
+                bytes.push(b'\r');
+            }
+            script.push(Item::Lines);
+            script.push(Item::Line);
+        }
+        _ => {
+            if !after_eof_test {
+                script.push(Item::Line);
+                script.push(Item::Line);
+            }
+        }
+    }
+    (script, bytes)
+}
+
+// ------------------------------------------------------------------------------------------------
+// running one (input, script) under one schedule
+
+struct Outcome {
+    results: Result<Vec<Res>, common::PanicInfo>,
+    log: CallLog,
+}
+
+fn run_delivery(data: &Rc<Vec<u8>>, script: &[Item], schedule: Vec<Ins>, tail: Tail) -> Outcome {
+    let log = Rc::new(RefCell::new(CallLog::default()));
+    let src = ScriptedRead { data: data.clone(), pos: 0, schedule, next: 0, tail, log: log.clone() };
+    let results = catch(|| {
+        let mut reader = lib!(Reader::new(Box::new(src)));
+        let mut out = Vec::with_capacity(script.len());
+        for it in script {
+            out.push(exec_item(&mut reader, it));
+        }
+        out
+    });
+    let l = std::mem::take(&mut *log.borrow_mut());
+    Outcome { results, log: l }
+}
+
+fn sched_string(s: &[Ins], tail: &Tail) -> String {
+    let mut out = String::new();
+    for (i, x) in s.iter().enumerate() {
+        if i >= 60 {
+            out.push_str(" ...");
+            break;
+        }
+        if i > 0 {
+            out.push(' ');
+        }
+        match x {
+            Ins::Give(k) => out.push_str(&k.to_string()),
+            Ins::Interrupt => out.push('E'),
+        }
+    }
+    format!("[{}] then {:?}", out, tail)
+}
+
+struct CaseCtx<'a> {
+    rep: &'a mut Report,
+    mode: &'static str,
+    replay: Vec<String>,
+    bytes: Rc<Vec<u8>>,
+    script: Vec<Item>,
+    want: Vec<Res>,
+    spans: Vec<(usize, usize, &'static str)>,
+    verbose: bool,
+}
+
+impl CaseCtx<'_> {
+    fn input_json(&self) -> Json {
+        let b = &self.bytes;
+        let shown = if b.len() <= 300 {
+            show_bytes(b)
+        } else {
+            format!("{} ... ({} bytes) ... {}", show_bytes(&b[..120]), b.len(), show_bytes(&b[b.len() - 120..]))
+        };
+        Json::obj().set("input", shown).set("input_len", b.len()).set("script", format!("{:?}", self.script))
+    }
+
+    /// classify the witness so that known findings can be keyed on the exact defect
+    fn judge(&mut self, schedule: &[Ins], tail: &Tail, o: &Outcome, sched_idx: u64) {
+        self.rep.inc("deliveries");
+        self.rep.count("read_calls", o.log.calls);
+        self.rep.count("interrupted_calls", o.log.interrupts);
+        if o.log.interrupts > 0 {
+            self.rep.inc("deliveries_with_interrupts");
+        }
+        // coverage: where did chunk boundaries fall?
+        for &bd in &o.log.boundaries {
+            for &(s, e, kind) in &self.spans {
+                if bd > s && bd < e {
+                    if kind == "line" {
+                        // CR | LF split?
+                        if self.bytes[bd - 1] == b'\r' && self.bytes[bd] == b'\n' {
+                            self.rep.inc("crlf_splits");
+                        }
+                        self.rep.see_str("split_points", &format!("line:{}", (bd - s).min(12)));
+                    } else {
+                        if kind == "signed" && bd == s + 1 && self.bytes[s] == b'-' {
+                            self.rep.inc("minus_digit_splits");
+                        }
+                        self.rep.see_str("split_points", &format!("{}:{}", kind, (bd - s).min(12)));
+                    }
+                    self.rep.inc("splits_inside_token_or_line");
+                }
+            }
+        }
+        for &c in &o.log.interrupted_calls {
+            self.rep.see_str("interrupted_call_positions", &format!("{}", c.min(40)));
+        }
+        self.rep.max("max_read_request", o.log.max_request as i64);
+        let mut replay = self.replay.clone();
+        if let Some(last) = replay.last_mut() {
+            *last = format!("{}:{}", last, sched_idx);
+        }
+        match &o.results {
+            Ok(got) => {
+                if *got != self.want {
+                    let k = got.iter().zip(self.want.iter()).position(|(a, b)| a != b).unwrap_or(0);
+                    let kind = match &self.script[k.min(self.script.len() - 1)] {
+                        Item::Line | Item::Lines => "line",
+                        Item::IsEof => "is_eof",
+                        _ => "token",
+                    };
+                    let interrupted = o.log.interrupts > 0;
+                    let sig = format!("result_depends_on_delivery:{}{}", kind, if interrupted { ":with_interrupts" } else { "" });
+                    let d = self
+                        .input_json()
+                        .set("what", "the values read under this delivery differ from the values determined by the input bytes")
+                        .set("delivery", sched_string(schedule, tail))
+                        .set("first_differing_item", k)
+                        .set("got", format!("{:?}", got.get(k)))
+                        .set("want", format!("{:?}", self.want.get(k)))
+                        .set("read_calls", o.log.calls);
+                    self.rep.violation(sig, d, replay);
+                }
+            }
+            Err(p) => {
+                if p.in_lib {
+                    let interrupted = o.log.interrupts > 0;
+                    let sig = if interrupted { "panic_on_interrupted_read".to_string() } else { format!("panic:{}", self.mode) };
+                    let d = self
+                        .input_json()
+                        .set("what", if interrupted { "the reader panicked although the source only reported ErrorKind::Interrupted, which callers must retry" } else { "the reader panicked on a valid input" })
+                        .set("delivery", sched_string(schedule, tail))
+                        .set("panic", p.msg.as_str())
+                        .set("at", format!("{}:{}", p.file, p.line));
+                    self.rep.violation(sig, d, replay);
+                } else {
+                    self.rep.inconclusive(format!("harness panic at {}:{}: {}", p.file, p.line, p.msg));
+                }
+            }
+        }
+        if self.verbose {
+            eprintln!("  delivery {} -> {:?}", sched_string(schedule, tail), o.results.as_ref().map_err(|p| p.msg.clone()));
+        }
+    }
+}
+
+fn compositions_schedule(n: usize, mask: u64) -> Vec<Ins> {
+    // bit i of mask set = cut after byte i (i in 0..n-1)
+    let mut v = Vec::new();
+    let mut cur = 0usize;
+    for i in 0..n {
+        cur += 1;
+        if i + 1 == n || (mask >> i) & 1 == 1 {
+            v.push(Ins::Give(cur));
+            cur = 0;
+        }
+    }
+    v
+}
+
+fn prepare<'a>(rep: &'a mut Report, mode: &'static str, case_seed: u64, bytes: Vec<u8>, script: Vec<Item>, verbose: bool) -> Option<CaseCtx<'a>> {
+    let replay = vec!["--mode".into(), mode.to_string(), "--case".into(), format!("{}", case_seed)];
+    match model_run(&bytes, &script) {
+        Ok((want, spans)) => {
+            if verbose {
+                eprintln!("input  : {}", show_bytes(&bytes[..bytes.len().min(400)]));
+                eprintln!("script : {:?}", script);
+                eprintln!("model  : {:?}", want);
+            }
+            Some(CaseCtx { rep, mode, replay, bytes: Rc::new(bytes), script, want, spans, verbose })
+        }
+        Err(e) => {
+            if verbose {
+                eprintln!("input  : {}", show_bytes(&bytes[..bytes.len().min(400)]));
+                eprintln!("script : {:?}", script);
+            }
+            rep.inconclusive(format!("reference model rejected a generated input (case {}): {}", case_seed, e));
+            None
+        }
+    }
+}
+
+/// exhaustive deliveries of one short input
+fn run_exhaustive_case(case_seed: u64, only: Option<u64>, rep: &mut Report, verbose: bool) {
+    let mut rng = Rng::new(case_seed);
+    let maxlen = 13;
+    let (script, mut bytes) = loop {
+        let (s, b) = gen_input(&mut rng, 4, 10);
+        if !b.is_empty() && b.len() <= maxlen {
+            break (s, b);
+        }
+    };
+    // a fixed family of instructive short inputs is mixed in
+    const FIXED: [&[u8]; 10] = [b"\nabc\r", b"a\r\nb", b"\r\n\r\n", b"-12 7", b"x\r", b"1\r\n2", b"\r", b"ab\rc\n", b"-0\t0", b"q\n\n"];
+    let mut script = script;
+    if case_seed % 7 == 0 {
+        let f = FIXED[(case_seed / 7 % FIXED.len() as u64) as usize];
+        bytes = f.to_vec();
+        script = if f == b"-12 7" {
+            vec![Item::One(Ty::I16), Item::One(Ty::U8), Item::IsEof]
+        } else if f == b"-0\t0" {
+            vec![Item::One(Ty::I8), Item::One(Ty::U128), Item::Line]
+        } else {
+            vec![Item::Lines, Item::Line, Item::IsEof]
+        };
+    }
+    rep.inc("evaluations");
+    let n = bytes.len();
+    let mut cx = match prepare(rep, "exhaustive", case_seed, bytes, script, verbose) {
+        Some(c) => c,
+        None => return,
+    };
+    cx.rep.see("nontrivial", mix(&[common::hash_of(&*cx.bytes), common::hash_str(&format!("{:?}", cx.script))]));
+    if cx.rep.wants_sample() {
+        let s = cx.input_json().set("model_results", format!("{:?}", cx.want)).set("deliveries", format!("all {} chunk compositions; Interrupted at every subset of call positions for compositions with <= 5 chunks", 1u64 << (n - 1)));
+        cx.rep.sample(s);
+    }
+    let mut idx = 0u64;
+    for mask in 0..(1u64 << (n - 1)) {
+        let base = compositions_schedule(n, mask);
+        if only.is_none() || only == Some(idx) {
+            let o = run_delivery(&cx.bytes, &cx.script, base.clone(), Tail::All);
+            cx.judge(&base, &Tail::All, &o, idx);
+        }
+        idx += 1;
+        // Interrupted at every subset of call positions (before each chunk and before the end-of-input read)
+        if base.len() <= 5 {
+            let slots = base.len() + 1;
+            for sub in 1..(1u64 << slots) {
+                if only.is_none() || only == Some(idx) {
+                    let mut s = Vec::new();
+                    for (i, ins) in base.iter().enumerate() {
+                        if (sub >> i) & 1 == 1 {
+                            s.push(Ins::Interrupt);
+                            if (sub >> i) & (1 << 0) == 1 && i % 2 == 1 {
+                                s.push(Ins::Interrupt); // two in a row at odd positions
+                            }
+                        }
+                        s.push(*ins);
+                    }
+                    if (sub >> base.len()) & 1 == 1 {
+                        s.push(Ins::Interrupt);
+                    }
+                    let o = run_delivery(&cx.bytes, &cx.script, s.clone(), Tail::All);
+                    cx.judge(&s, &Tail::All, &o, idx);
+                }
+                idx += 1;
+            }
+        }
+    }
+    cx.rep.count("schedules_enumerated", idx);
+}
+
+fn random_schedule(rng: &mut Rng, n: usize, interrupts: bool) -> (Vec<Ins>, Tail) {
+    let style = rng.below(7);
+    let density = if interrupts { rng.below(51) } else { 0 };
+    let mut s = Vec::new();
+    let mut given = 0usize;
+    let mut first = true;
+    while given < n && s.len() < 4000 {
+        if density > 0 && rng.below(100) < density {
+            s.push(Ins::Interrupt);
+            continue;
+        }
+        let k = match style {
+            0 => 1,
+            1 => rng.range_usize(1, 3),
+            2 => rng.range_usize(1, 16),
+            3 => {
+                // stale-buffer scenario: one long first fill, then short ones
+                if first {
+                    (n * 2 / 3).max(1)
+                } else {
+                    rng.range_usize(1, 4)
+                }
+            }
+            4 => rng.range_usize(1, n.max(2)),
+            5 => {
+                if rng.chance(1, 2) {
+                    1
+                } else {
+                    rng.range_usize(1, 40)
+                }
+            }
+            _ => n,
+        };
+        first = false;
+        s.push(Ins::Give(k));
+        given += k;
+    }
+    if density > 0 && rng.chance(1, 2) {
+        s.push(Ins::Interrupt); // before the end-of-input read
+    }
+    let tail = if rng.chance(1, 2) { Tail::All } else { Tail::Fixed(rng.range_usize(1, 9)) };
+    (s, tail)
+}
+
+fn run_random_case(case_seed: u64, only: Option<u64>, rep: &mut Report, verbose: bool) {
+    let mut rng = Rng::new(case_seed);
+    let (script, bytes) = gen_input(&mut rng, 14, 600);
+    rep.inc("evaluations");
+    let n = bytes.len();
+    let mut cx = match prepare(rep, "random", case_seed, bytes, script, verbose) {
+        Some(c) => c,
+        None => return,
+    };
+    cx.rep.see("nontrivial", mix(&[common::hash_of(&*cx.bytes), case_seed]));
+    if cx.rep.wants_sample() && n < 80 {
+        let s = cx.input_json().set("model_results", format!("{:?}", cx.want));
+        cx.rep.sample(s);
+    }
+    // one-shot, one byte per call, and random schedules
+    let mut idx = 0u64;
+    let mut fixed: Vec<(Vec<Ins>, Tail)> = vec![(vec![], Tail::All), (vec![], Tail::Fixed(1)), (vec![Ins::Interrupt], Tail::All), (vec![Ins::Interrupt, Ins::Interrupt, Ins::Give(1), Ins::Interrupt], Tail::Fixed(2))];
+    for _ in 0..12 {
+        let with_int = rng.chance(1, 2);
+        fixed.push(random_schedule(&mut rng, n.max(1), with_int));
+    }
+    for (s, t) in fixed {
+        if only.is_none() || only == Some(idx) {
+            let o = run_delivery(&cx.bytes, &cx.script, s.clone(), t.clone());
+            cx.judge(&s, &t, &o, idx);
+        }
+        idx += 1;
+    }
+}
+
+/// inputs longer than the internal buffer: padding places interesting tokens across k*BUF, BUF-1, BUF+1 and
+/// across the first short read
+fn run_boundary_case(case_seed: u64, only: Option<u64>, rep: &mut Report, verbose: bool) {
+    let mut rng = Rng::new(case_seed);
+    let buf = Reader::verif_buf_size();
+    rep.inc("evaluations");
+    // layout: [padding token or whitespace run] [payload] [more padding] [payload] ...
+    let mut bytes: Vec<u8> = Vec::new();
+    let mut script: Vec<Item> = Vec::new();
+    let targets = [buf - 1, buf, buf + 1, 2 * buf - 1, 2 * buf, 2 * buf + 1, buf / 2, buf + buf / 3];
+    let nseg = rng.range_usize(1, 3);
+    let mut tsorted: Vec<usize> = (0..nseg).map(|_| targets[rng.usize_below(targets.len())]).collect();
+    tsorted.sort();
+    tsorted.dedup();
+    for &target in &tsorted {
+        // the payload should straddle `target`: start it `off` bytes before
+        let payload_kind = rng.below(6);
+        let off = rng.range_usize(0, 6);
+        let want_start = target.saturating_sub(off);
+        if want_start < bytes.len() + 2 {
+            continue;
+        }
+        let pad = want_start - bytes.len();
+        if rng.chance(1, 2) {
+            // a long string token followed by one separator
+            let tok: Vec<u8> = (0..pad - 1).map(|i| b'a' + ((i * 7 + target) % 26) as u8).collect();
+            bytes.extend(tok);
+            bytes.push(b' ');
+            script.push(Item::One(Ty::Str));
+        } else {
+            // a whitespace run (skipped by the next token read)
+            for i in 0..pad {
+                bytes.push(if i % 5 == 4 { b'\t' } else { b' ' });
+            }
+        }
+        match payload_kind {
+            0 => {
+                bytes.extend_from_slice(i128::MIN.to_string().as_bytes());
+                bytes.push(b' ');
+                script.push(Item::One(Ty::I128));
+            }
+            1 => {
+                bytes.extend_from_slice(b"-9223372036854775808 18446744073709551615 ");
+                script.push(Item::One(Ty::I64));
+                script.push(Item::One(Ty::U64));
+            }
+            2 => {
+                // a line with CR LF right at the edge
+                bytes.extend_from_slice(b"\n");
+                let l = gen_line_text(&mut rng);
+                bytes.extend(l);
+                bytes.extend_from_slice(b"\r\n");
+                bytes.extend_from_slice(b"x\r\n");
+                script.push(Item::Line);
+                script.push(Item::Line);
+                script.push(Item::Line);
+            }
+            3 => {
+                bytes.extend_from_slice(b"-7 -1 -128 ");
+                script.push(Item::VecOf(Ty::I8, 3));
+            }
+            4 => {
+                bytes.extend_from_slice(b"zq 5 65535 ");
+                script.push(Item::Tuple(1));
+            }
+            _ => {
+                bytes.extend_from_slice(b"ab");
+                bytes.extend_from_slice(b" ");
+                script.push(Item::One(Ty::Char));
+                script.push(Item::One(Ty::Char));
+            }
+        }
+    }
+    // tail
+    bytes.extend_from_slice(b"\nlast line");
+    if rng.chance(1, 2) {
+        bytes.push(b'\r');
+    }
+    script.push(Item::Lines);
+    script.push(Item::IsEof);
+    let n = bytes.len();
+    let mut cx = match prepare(rep, "boundary", case_seed, bytes, script, verbose) {
+        Some(c) => c,
+        None => return,
+    };
+    cx.rep.see("nontrivial", case_seed);
+    cx.rep.max("max_input_len", n as i64);
+    let mut scheds: Vec<(Vec<Ins>, Tail)> = vec![
+        (vec![], Tail::All),                    // full buffers
+        (vec![], Tail::Fixed(buf - 1)),         // always one short of a full buffer
+        (vec![], Tail::Fixed(buf / 2 + 1)),
+        (vec![Ins::Give(buf - 1), Ins::Give(1), Ins::Give(1), Ins::Give(1)], Tail::All),
+        (vec![Ins::Give(buf), Ins::Give(1), Ins::Interrupt, Ins::Give(2)], Tail::Fixed(3000)),
+        (vec![Ins::Give(1), Ins::Give(buf)], Tail::All),
+        (vec![Ins::Interrupt, Ins::Give(buf - 2), Ins::Interrupt, Ins::Interrupt, Ins::Give(5)], Tail::All),
+    ];
+    for _ in 0..3 {
+        // random big chunks
+        let mut s = Vec::new();
+        let mut g = 0;
+        while g < n {
+            let k = match rng.below(4) {
+                0 => buf,
+                1 => rng.range_usize(buf - 3, buf + 3),
+                2 => rng.range_usize(1, 7),
+                _ => rng.range_usize(1, 2 * buf),
+            };
+            if rng.chance(1, 6) {
+                s.push(Ins::Interrupt);
+            }
+            s.push(Ins::Give(k));
+            g += k.min(buf);
+        }
+        scheds.push((s, Tail::All));
+    }
+    for (idx, (s, t)) in scheds.into_iter().enumerate() {
+        if only.is_none() || only == Some(idx as u64) {
+            let o = run_delivery(&cx.bytes, &cx.script, s.clone(), t.clone());
+            // buffer-boundary straddles: a chunk boundary at a multiple of BUF inside a token
+            for &bd in &o.log.boundaries {
+                if bd % buf == 0 {
+                    for &(s0, e0, _) in &cx.spans {
+                        if bd > s0 && bd < e0 {
+                            cx.rep.inc("buffer_boundary_straddles");
+                        }
+                    }
+                }
+            }
+            cx.judge(&s, &t, &o, idx as u64);
+        }
+    }
+}
+
+fn main() {
+    let eng = Engine::start("readmon");
+    let a = &eng.args;
+    let mode = a.str("mode", "random");
+    let thorough = a.thorough();
+    let seed = a.seed();
+    let mut report = Report::new();
+    report.extra("mode", mode.as_str());
+    report.extra("debug_assertions", cfg!(debug_assertions));
+    report.extra("reader_buf_size", Reader::verif_buf_size());
+    type Runner = fn(u64, Option<u64>, &mut Report, bool);
+    let (runner, default_cases, tag): (Runner, u64, u64) = match mode.as_str() {
+        "exhaustive" => (run_exhaustive_case, if thorough { 30_000 } else { 1500 }, 1),
+        "random" => (run_random_case, if thorough { 6_000_000 } else { 300_000 }, 2),
+        "boundary" => (run_boundary_case, if thorough { 30_000 } else { 1500 }, 3),
+        m => panic!("unknown mode {}", m),
+    };
+    if let Some(c) = a.opt("case") {
+        let (cs, only) = match c.split_once(':') {
+            Some((x, y)) => (x.parse::<u64>().unwrap(), Some(y.parse::<u64>().unwrap())),
+            None => (c.parse::<u64>().unwrap(), None),
+        };
+        let mut rep = Report::new();
+        runner(cs, only, &mut rep, true);
+        report.merge(rep);
+        eng.finish(report);
+    }
+    let total = a.u64("cases", default_cases);
+    let q = WorkQueue::new(total);
+    let rep = common::run_sharded(a.threads(), |_s, rep| {
+        rep.sample_cap = 1;
+        while let Some(i) = q.take() {
+            // case seeds are small numbers for the exhaustive mode so that the fixed family is mixed in
+            let cs = if tag == 1 { mix(&[seed, tag]) % 1_000_000 * 1000 + i } else { mix(&[seed, tag, i]) };
+            runner(cs, None, rep, false);
+        }
+    });
+    report.merge(rep);
+    report.extra("exhaustive", mode == "exhaustive");
+    eng.finish(report);
+}
